@@ -42,7 +42,7 @@ func init() {
 			"guards that only differ in how they compare (e.g. TERMINATED BY '' handling)",
 		Run: func(c *Ctx) {
 			runC50(c, real, 6)
-			runC50Opts(c, real, c50Floors{o1: 6, o2: 5, o3: 4, o4: 2, o5: 9, o6: 4})
+			runC50Opts(c, real, c50Floors{o1: 6, o2: 5, o3: 3, o4: 2, o5: 9, o6: 4})
 		},
 		Fixture: func(c *Ctx, fx2 *Prog) {
 			expectFixture(c, fx2, "c50: different default, different override source, option ignored by one executor, unescaped delimiter must be reported",
